@@ -234,6 +234,16 @@ def apply_text_match(el: ET.Element, value: str) -> bool:
         return matches
 
 
+def _text_values(prop) -> list[str]:
+    """Return the text value(s) of a vobject content line."""
+    value = prop.value
+    if isinstance(value, str):
+        return [value]
+    if isinstance(value, list):
+        return [str(v) for v in value]
+    return [str(value)]
+
+
 def apply_param_filter(el, prop):
     name = el.get("name")
     if len(el) == 1 and el[0].tag == "{urn:ietf:params:xml:ns:carddav}is-not-defined":
@@ -273,7 +283,9 @@ def apply_prop_filter(el, ab):
         matched = True
         for subel in el:
             if subel.tag == "{urn:ietf:params:xml:ns:carddav}text-match":
-                if not apply_text_match(subel, str(prop_el)):
+                # Match against the value, not against str(prop_el), which is
+                # vobject's debug representation ("<FN{}John Doe>")
+                if not any(apply_text_match(subel, v) for v in _text_values(prop_el)):
                     matched = False
                     break
             elif subel.tag == "{urn:ietf:params:xml:ns:carddav}param-filter":
